@@ -29,6 +29,11 @@ type recStream struct {
 	log   []handout
 	cache map[int64][32]byte
 	maxRd int // >0: deliver at most this many bytes per Read (a source may legally return short reads)
+	// hold > 0: a slow source — each first Read of a caller waits until `hold` callers are inside the source
+	// (or 2 s have passed), so that many calls are in flight at once
+	hold    int
+	waiting int
+	gate    chan struct{}
 }
 type handout struct {
 	off, n, seq int64
@@ -69,6 +74,19 @@ func (s *recStream) byteAt(pos int64) byte {
 }
 
 func (s *recStream) Read(p []byte) (int, error) {
+	if s.hold > 0 {
+		s.mu.Lock()
+		s.waiting++
+		if s.waiting == s.hold {
+			close(s.gate)
+		}
+		g := s.gate
+		s.mu.Unlock()
+		select {
+		case <-g:
+		case <-time.After(2 * time.Second):
+		}
+	}
 	s.mu.Lock()
 	defer s.mu.Unlock()
 	if s.maxRd > 0 && len(p) > s.maxRd {
@@ -105,11 +123,12 @@ type c08History struct {
 	Calls      int    `json:"calls_per_goroutine"`
 	Procs      int    `json:"gomaxprocs"`
 	MaxRead    int    `json:"max_bytes_per_read,omitempty"`
+	Hold       int    `json:"callers_held_inside_the_source,omitempty"`
 }
 
 func runRSHistory(c *Ctx, h c08History) {
 	r := c.R
-	st := &recStream{seed: h.Seed, mode: h.Mode, cache: map[int64][32]byte{}, maxRd: h.MaxRead}
+	st := &recStream{seed: h.Seed, mode: h.Mode, cache: map[int64][32]byte{}, maxRd: h.MaxRead, hold: h.Hold, gate: make(chan struct{})}
 	saved := crand.Reader
 	crand.Reader = st
 	calls := make([][]rsCall, h.Goroutines)
@@ -122,7 +141,7 @@ func runRSHistory(c *Ctx, h c08History) {
 			for i := 0; i < h.Calls; i++ {
 				x = x*6364136223846793005 + 1442695040888963407
 				algo := int(x>>33) % 3
-				if (x>>40)%11 == 0 {
+				if (x>>40)%11 == 0 && h.Hold == 0 {
 					algo = 3 + int(x>>20)%253
 				}
 				k := rsCall{algo: algo, g: g, start: st.Seq(), gid: goid()}
@@ -292,6 +311,10 @@ func c08Concurrent(c *Ctx) []c08History {
 	}
 	hs = append(hs, c08History{Seed: rng.U64(), Mode: 1, Goroutines: 8, Calls: 100})
 	hs = append(hs, c08History{Seed: rng.U64(), Mode: 0, Goroutines: 8, Calls: 200, MaxRead: 13})
+	// hundreds / thousands of calls in flight at once (all held inside a slow source), one call per goroutine
+	for _, g := range []int{300, 1000, c.N(2000, 5000)} {
+		hs = append(hs, c08History{Seed: rng.U64(), Mode: 0, Goroutines: g, Calls: 1, Hold: g})
+	}
 	return hs
 }
 
